@@ -32,6 +32,21 @@ type propKey struct {
 	root   [32]byte
 }
 
+// msgKey: what a correct operator signed (single-signer messages); used by the multi-node replay to notice that a file recorded
+// on another tree feeds an operator a message "signed by" a correct operator that this operator does not send on this tree
+type msgKey struct {
+	t         specqbft.MessageType
+	signer    spectypes.OperatorID
+	h         specqbft.Height
+	round     specqbft.Round
+	root      [32]byte
+	dataRound specqbft.Round
+}
+
+func keyOf(m *specqbft.SignedMessage) msgKey {
+	return msgKey{m.Message.MsgType, m.Signers[0], m.Message.Height, m.Message.Round, m.Message.Root, m.Message.DataRound}
+}
+
 type c07Pre struct {
 	ok                bool // instance of the case's height exists, is the controller's current one, undecided, processing messages
 	round             specqbft.Round
@@ -97,6 +112,12 @@ func (c *Case) noteEvents() (proposed bool) {
 		case "t":
 			c.armedH, c.armedR, c.armedOK = e.h, e.r, true
 		case "b":
+			if e.msg != nil && len(e.msg.Signers) == 1 {
+				if c.sentAll == nil {
+					c.sentAll = map[msgKey]bool{}
+				}
+				c.sentAll[keyOf(e.msg)] = true
+			}
 			if e.msg != nil && e.msg.Message.MsgType == specqbft.ProposalMsgType && len(e.msg.Signers) == 1 {
 				proposed = true
 				if c.sentProps == nil {
@@ -132,6 +153,7 @@ func (c *Case) c07AfterStart() {
 
 func (c *Case) c07AfterDeliver(p c07Pre, m *specqbft.SignedMessage, r ctrlResult) {
 	proposed := c.noteEvents()
+	c.noteSigned(m, 0)
 	if !c.c07 {
 		return
 	}
@@ -244,4 +266,41 @@ func refusedCorrectProposals(cases []*Case) (string, bool) {
 		}
 	}
 	return "", false
+}
+
+// inconsistentReplay: some operator of the file was fed a validly signed message of another operator OF THE FILE (a correct one)
+// that this operator never sends when the file is re-run on this tree — the recorded schedule does not exist here.
+func inconsistentReplay(cases []*Case) bool {
+	byOp := map[spectypes.OperatorID]*Case{}
+	for _, c := range cases {
+		byOp[c.op] = c
+	}
+	for _, c := range cases {
+		for _, k := range c.gotSigned {
+			if s, ok := byOp[k.signer]; ok && !s.sentAll[k] {
+				return true
+			}
+		}
+	}
+	return false
+}
+
+// noteSigned: the validly signed single-signer messages (top level and embedded justifications) an operator was fed
+func (c *Case) noteSigned(m *specqbft.SignedMessage, depth int) {
+	if m == nil || depth > 2 {
+		return
+	}
+	if len(m.Signers) == 1 && string(m.Message.Identifier) == string(c.env.identifier) && sigOk(c.env, m) {
+		c.gotSigned = append(c.gotSigned, keyOf(m))
+	}
+	if js, err := m.Message.GetRoundChangeJustifications(); err == nil {
+		for _, j := range js {
+			c.noteSigned(j, depth+1)
+		}
+	}
+	if js, err := m.Message.GetPrepareJustifications(); err == nil {
+		for _, j := range js {
+			c.noteSigned(j, depth+1)
+		}
+	}
 }
